@@ -51,12 +51,20 @@ Proof.
   - injection E as ->. apply Z.eqb_refl.
 Qed.
 
+Lemma opt2_eqb_eq a b : opt2_eqb a b = true <-> a = b.
+Proof.
+  destruct a as [[x1 x2]|], b as [[y1 y2]|]; cbn [opt2_eqb]; split; intros E;
+    try discriminate; auto.
+  - apply andb_true_iff in E. destruct E as (E1 & E2). apply Z.eqb_eq in E1, E2. now subst.
+  - injection E as -> ->. now rewrite !Z.eqb_refl.
+Qed.
+
 Lemma cent_eqb_eq a b : cent_eqb a b = true <-> a = b.
 Proof.
   destruct a as [k x], b as [k' y]. unfold cent_eqb. cbn [fst snd]. split; intros E.
   - apply andb_true_iff in E. destruct E as (E1 & E2).
-    apply Z.eqb_eq in E1. apply opt_eqb_eq in E2. now subst.
-  - injection E as -> ->. apply andb_true_iff. split; [apply Z.eqb_refl|now apply opt_eqb_eq].
+    apply Z.eqb_eq in E1. apply opt2_eqb_eq in E2. now subst.
+  - injection E as -> ->. apply andb_true_iff. split; [apply Z.eqb_refl|now apply opt2_eqb_eq].
 Qed.
 
 Lemma bool_eqb_eq a b : Bool.eqb a b = true <-> a = b.
@@ -74,37 +82,18 @@ Proof.
   - intros [= -> -> -> -> -> -> ->]. tauto.
 Qed.
 
-(* ---- how an operation moves (enabled, relay queue, entity fields) ------- *)
-Record evp := { ep_en : bool; ep_q : list (Z * Z); ep_cent : list (Z * Z) }.
+(* ---- how a World call moves (enabled, relay queue, controller fields) ---- *)
 Definition evp_of (st : wstate) : evp :=
-  {| ep_en := w_en st; ep_q := w_queue st; ep_cent := cent st |}.
+  {| ep_en := w_en st; ep_q := w_queue st; ep_cent := cent st; ep_wid := wid st |}.
 
 Section PartA.
 Variable H : hier.
 Variable K : comps.
 Variable P : insts.
 
-Definition nac (p : evp) (c e : Z) : evp :=
-  if k_ctrl (cinst_of K c) then
-    if ep_en p then {| ep_en := ep_en p; ep_q := ep_q p; ep_cent := aset c e (ep_cent p) |}
-    else {| ep_en := ep_en p; ep_q := ep_q p ++ [(c, e)]; ep_cent := ep_cent p |}
-  else p.
-Definition ev_attaches (p : evp) (l : list (Z * Z)) : evp :=
-  fold_left (fun s ec => nac s (snd ec) (fst ec)) l p.
-Definition wop_ev (p : evp) (w : wop) : evp :=
-  match w with
-  | WCreate e cs => ev_attaches p (map (fun c => (e, c)) cs)
-  | WAdd e c => nac p c e
-  | WEnable true =>
-      {| ep_en := true; ep_q := [];
-         ep_cent := fold_left (fun ce ke => aset (fst ke) (snd ke) ce) (ep_q p) (ep_cent p) |}
-  | WEnable false => {| ep_en := false; ep_q := ep_q p; ep_cent := ep_cent p |}
-  | _ => p
-  end.
-
-Lemma evp_notify st c e : evp_of (notify_add_c K st c e) = nac (evp_of st) c e.
+Lemma evp_notify st c e : evp_of (notify_add_c K st c e) = attach K (evp_of st) c e.
 Proof.
-  unfold notify_add_c, nac, evp_of. cbn [ep_en ep_q ep_cent].
+  unfold notify_add_c, attach, evp_of. cbn [ep_en ep_q ep_cent ep_wid].
   destruct (k_ctrl (cinst_of K c)); auto. destruct (w_en st); reflexivity.
 Qed.
 
@@ -117,7 +106,7 @@ Proof. unfold drop_slot. destruct (adel u (row st e)); reflexivity. Qed.
 Lemma evp_put_slot st e ty c : evp_of (put_slot st e ty c) = evp_of st.
 Proof. reflexivity. Qed.
 
-Lemma evp_add_component st e c : evp_of (w_add_component K st e c) = nac (evp_of st) c e.
+Lemma evp_add_component st e c : evp_of (w_add_component K st e c) = attach K (evp_of st) c e.
 Proof.
   unfold w_add_component. rewrite evp_notify, evp_put_slot. f_equal.
   destruct (alookup _ (row st e)); auto.
@@ -130,16 +119,16 @@ Proof. induction cs as [|c cs IH]; intros st e; cbn [fold_left]; auto. now rewri
 
 Lemma evp_fold_notify cs : forall st e,
   evp_of (fold_left (fun s c => notify_add_c K s c e) cs st)
-  = ev_attaches (evp_of st) (map (fun c => (e, c)) cs).
+  = fold_left (fun s c => attach K s c e) cs (evp_of st).
 Proof.
-  unfold ev_attaches. induction cs as [|c cs IH]; intros st e; cbn [fold_left map]; auto.
+  induction cs as [|c cs IH]; intros st e; cbn [fold_left]; auto.
   rewrite IH, evp_notify. reflexivity.
 Qed.
 
 Lemma evp_w_step st w pick st' r log :
-  w_step H K P st w pick = Some (st', r, log) -> evp_of st' = wop_ev (evp_of st) w.
+  w_step H K P st w pick = Some (st', r, log) -> evp_of st' = world_ev K (evp_of st) w.
 Proof.
-  destruct w as [e cs|e c|e t|e t|e t|e|e imm|dt|b|p cur|t|t]; cbn [w_step wop_ev].
+  destruct w as [e cs|e c|e t|e t|e t|e|e imm|dt|b|p cur|t|t]; cbn [w_step world_ev].
   - intros [= <- _ _]. unfold w_create_entity. now rewrite evp_fold_notify, evp_fold_put.
   - intros [= <- _ _]. apply evp_add_component.
   - unfold w_remove_component. destruct (pick_ok H (row st e) t pick) as [[[u c]|]|];
@@ -156,306 +145,162 @@ Proof.
   - destruct (remove_processor H P (pst st) t pick) as [[ps l]|]; intros [= <- _ _]. reflexivity.
 Qed.
 
-(* only WAdd / WCreate / WEnable move the triple; shorthands lower to one of them *)
-Definition cop_ev (p : evp) (op : cop) : evp :=
-  match op with
-  | ODirect (WEnable b) => wop_ev p (WEnable b)
-  | OMkCtrl k e => {| ep_en := ep_en p; ep_q := ep_q p; ep_cent := aset k e (ep_cent p) |}
-  | _ => ev_attaches p (attaches op)
-  end.
+Lemma attach_wid p c e : ep_wid (attach K p c e) = ep_wid p.
+Proof. unfold attach. destruct (k_ctrl _); auto. destruct (ep_en p); reflexivity. Qed.
 
-Lemma wop_ev_attaches p w :
-  wop_ev p w = cop_ev p (ODirect w).
-Proof. destruct w as [| | | | | | | |b| | |]; try reflexivity. Qed.
+Lemma world_ev_wid p w : ep_wid (world_ev K p w) = ep_wid p.
+Proof.
+  destruct w as [e cs| | | | | | | |b| | |]; cbn [world_ev]; auto.
+  - revert p. induction cs as [|c cs IH]; intros p; cbn [fold_left]; auto.
+    now rewrite IH, attach_wid.
+  - apply attach_wid.
+  - destruct b; reflexivity.
+Qed.
 
-Lemma lower_ev p k e s : wop_ev p (fst (lower s e)) = cop_ev p (OShort k e s).
+Lemma lowered_ev p s e : world_ev K p (fst (lower s e)) = world_ev K p (lowered s e).
 Proof. destruct s; reflexivity. Qed.
 
-(* ---- the owner invariant ------------------------------------------------ *)
-(* the entity of the last relayed on_add still waiting for controller k *)
-Definition qlast (k : Z) (q : list (Z * Z)) : option Z := alookup k (rev q).
+(* ---- a side: two worlds sharing the controllers -------------------------- *)
+Definition Good (d : duo) : Prop :=
+  cent (d1 d) = cent (d2 d) /\ wid (d1 d) = 1 /\ wid (d2 d) = 2.
+Definition track_of (d : duo) : track :=
+  {| t_own := cent (d1 d); t_en1 := w_en (d1 d); t_q1 := w_queue (d1 d);
+     t_en2 := w_en (d2 d); t_q2 := w_queue (d2 d) |}.
 
-Lemma alookup_app {A} k (l1 l2 : list (Z * A)) :
-  alookup k (l1 ++ l2) = match alookup k l1 with Some v => Some v | None => alookup k l2 end.
+Lemma Good_init : Good dinit.
+Proof. repeat split. Qed.
+
+Lemma evp_pick d j : Good d -> evp_of (pickw d j) = t_evp (track_of d) j.
 Proof.
-  induction l1 as [|[k' v] l1 IH]; cbn [app alookup]; auto. destruct (k =? k'); auto.
+  intros (Hc & H1 & H2). unfold pickw, t_evp, evp_of, track_of.
+  cbn [t_own t_en1 t_q1 t_en2 t_q2]. destruct (j =? 2); congruence.
 Qed.
 
-Lemma qlast_snoc k q c e : qlast k (q ++ [(c, e)]) = if k =? c then Some e else qlast k q.
-Proof. unfold qlast. rewrite rev_app_distr. reflexivity. Qed.
-
-Lemma fold_aset_qlast (q : list (Z * Z)) : forall (ce : list (Z * Z)) (k : Z),
-  alookup k (fold_left (fun ce ke => aset (fst ke) (snd ke) ce) q ce)
-  = match qlast k q with Some e => Some e | None => alookup k ce end.
+Lemma put_track d j st' :
+  Good d -> wid st' = wid (pickw d j) ->
+  Good (putw d j st') /\ track_of (putw d j st') = t_put (track_of d) j (evp_of st').
 Proof.
-  induction q as [|[k' e'] q IH]; intros ce k; cbn [fold_left fst snd]; auto.
-  rewrite IH. unfold qlast. cbn [rev]. rewrite alookup_app.
-  destruct (alookup k (rev q)); auto. cbn [alookup]. rewrite alookup_aset.
-  destruct (k =? k'); auto.
+  intros (Hc & H1 & H2) Hw. unfold putw, pickw, t_put, track_of, Good in *.
+  destruct (j =? 2); cbn; repeat split; auto; congruence.
 Qed.
 
-Lemma memz_remz k c l : memz k (remz c l) = true -> k <> c /\ memz k l = true.
+Lemma on_world_track d j w disc pick d' r log :
+  Good d -> on_world H K P d j w disc pick = Some (d', r, log) ->
+  Good d' /\ track_of d' = t_put (track_of d) j (world_ev K (t_evp (track_of d) j) w).
 Proof.
-  rewrite !memz_In. unfold remz. intros Hin. apply filter_In in Hin.
-  destruct Hin as (Hin & Hne). split; auto. apply negb_true_iff in Hne. lia.
+  intros HG Ho. unfold on_world in Ho.
+  destruct (w_step H K P (pickw d j) w pick) as [[[st' r'] l']|] eqn:Ew; [|discriminate].
+  injection Ho as <- _ _. pose proof (evp_w_step _ _ _ _ _ _ Ew) as Hev.
+  assert (Hw : wid st' = wid (pickw d j)).
+  { change (ep_wid (evp_of st') = ep_wid (evp_of (pickw d j))). rewrite Hev. apply world_ev_wid. }
+  destruct (put_track d j st' HG Hw) as (HG' & Ht). split; auto.
+  now rewrite Ht, Hev, (evp_pick d j HG).
 Qed.
 
-Definition OwnInv (p : evp) (o : ospec) : Prop :=
-  ep_en p = sp_en o /\
-  (forall k e, alookup k (own o) = Some e ->
-               match qlast k (ep_q p) with
-               | Some e' => e' = e
-               | None => alookup k (ep_cent p) = Some e
-               end) /\
-  (forall k, qlast k (ep_q p) <> None -> amem k (own o) = true) /\
-  (forall k, memz k (dlv o) = true -> qlast k (ep_q p) = None /\ amem k (own o) = true) /\
-  (ep_en p = true -> ep_q p = []) /\
-  (forall k, amem k (own o) = true -> memz k (attached o) = true).
+Lemma pickw_norm d j : pickw d (norm j) = pickw d j.
+Proof. unfold pickw, norm. destruct (j =? 2); reflexivity. Qed.
+Lemma putw_norm d j st : putw d (norm j) st = putw d j st.
+Proof. unfold putw, norm. destruct (j =? 2); reflexivity. Qed.
+Lemma on_world_norm d j w disc pick :
+  on_world H K P d (norm j) w disc pick = on_world H K P d j w disc pick.
+Proof. unfold on_world, pickw, putw, norm. destruct (j =? 2); reflexivity. Qed.
 
-Ltac own_split := split; [|split; [|split; [|split; [|split]]]].
+Lemma wid_pick d j : Good d -> wid (pickw d j) = norm j.
+Proof. intros (_ & H1 & H2). unfold pickw, norm. destruct (j =? 2); auto. Qed.
 
-Lemma OwnInv_init : OwnInv (evp_of winit) oinit.
+Lemma knows_snapshot pool d j :
+  Good d -> knows (track_of d) (snapshot K pool (pickw d j)) = true.
 Proof.
-  own_split; cbn; auto; try discriminate; try (intros k Hk; now elim Hk).
-Qed.
-
-Lemma own_attach p o e c : OwnInv p o -> OwnInv (nac p c e) (attach K o e c).
-Proof.
-  intros (J1 & J2 & J3 & J4 & J5 & J6). unfold nac, attach.
-  destruct (k_ctrl (cinst_of K c)).
-  - rewrite <- J1. destruct (ep_en p) eqn:En.
-    + (* enabled: on_add runs at once; nothing is waiting *)
-      pose proof (J5 eq_refl) as Hq.
-      own_split; cbn [ep_en ep_q ep_cent own dlv sp_en attached].
-      * reflexivity.
-      * intros k e0. rewrite Hq. cbn. rewrite !alookup_aset.
-        destruct (k =? c) eqn:E; auto. intros Ho. specialize (J2 k e0 Ho).
-        rewrite Hq in J2. exact J2.
-      * intros k Hk. rewrite Hq in Hk. now elim Hk.
-      * intros k Hk. rewrite Hq. split; [reflexivity|].
-        rewrite memz_addz in Hk. rewrite amem_aset.
-        destruct (k =? c) eqn:E; cbn [orb] in *; auto. now apply J4.
-      * auto.
-      * intros k. rewrite amem_aset, memz_cons. destruct (k =? c); cbn [orb]; auto; apply J6.
-    + (* disabled: relayed; the controller waits again *)
-      own_split; cbn [ep_en ep_q ep_cent own dlv sp_en attached].
-      * reflexivity.
-      * intros k e0. rewrite qlast_snoc, alookup_aset. destruct (k =? c); [congruence|].
-        apply J2.
-      * intros k. rewrite qlast_snoc, amem_aset. destruct (k =? c); cbn [orb]; auto.
-      * intros k Hk. apply memz_remz in Hk. destruct Hk as (Hne & Hm).
-        rewrite qlast_snoc, amem_aset. destruct (k =? c) eqn:E; [lia|]. cbn [orb].
-        now apply J4.
-      * discriminate.
-      * intros k. rewrite amem_aset, memz_cons. destruct (k =? c); cbn [orb]; auto; apply J6.
-  - own_split; cbn [own dlv sp_en attached].
-    + exact J1.
-    + exact J2.
-    + exact J3.
-    + exact J4.
-    + exact J5.
-    + intros k Hk. rewrite memz_cons, (J6 k Hk). apply orb_true_r.
-Qed.
-
-Lemma own_attaches l : forall p o,
-  OwnInv p o ->
-  OwnInv (ev_attaches p l) (fold_left (fun s ec => attach K s (fst ec) (snd ec)) l o).
-Proof.
-  unfold ev_attaches. induction l as [|[e c] l IH]; intros p o HI; cbn [fold_left snd fst]; auto.
-  apply IH. now apply own_attach.
-Qed.
-
-Lemma own_enable p o b :
-  OwnInv p o ->
-  OwnInv (wop_ev p (WEnable b))
-         (if b then {| own := own o; dlv := akeys (own o); sp_en := true; attached := attached o |}
-          else {| own := own o; dlv := dlv o; sp_en := false; attached := attached o |}).
-Proof.
-  intros (J1 & J2 & J3 & J4 & J5 & J6). destruct b; cbn [wop_ev].
-  - own_split; cbn [ep_en ep_q ep_cent own dlv sp_en attached].
-    + reflexivity.
-    + intros k e Ho. cbn. rewrite fold_aset_qlast. specialize (J2 k e Ho).
-      destruct (qlast k (ep_q p)); congruence.
-    + intros k Hk. now elim Hk.
-    + intros k Hk. split; [reflexivity|]. now rewrite amem_akeys.
-    + reflexivity.
-    + exact J6.
-  - own_split; cbn [ep_en ep_q ep_cent own dlv sp_en attached].
-    + reflexivity.
-    + exact J2.
-    + exact J3.
-    + exact J4.
-    + discriminate.
-    + exact J6.
-Qed.
-
-Lemma own_mk p o k e :
-  OwnInv p o -> memz k (attached o) = false ->
-  OwnInv {| ep_en := ep_en p; ep_q := ep_q p; ep_cent := aset k e (ep_cent p) |}
-         {| own := aset k e (own o); dlv := addz k (dlv o); sp_en := sp_en o;
-            attached := k :: attached o |}.
-Proof.
-  intros (J1 & J2 & J3 & J4 & J5 & J6) Hfresh.
-  assert (Hown : amem k (own o) = false).
-  { destruct (amem k (own o)) eqn:E; auto. rewrite (J6 k E) in Hfresh. discriminate. }
-  assert (Hq : qlast k (ep_q p) = None).
-  { destruct (qlast k (ep_q p)) eqn:E; auto.
-    assert (Hn : qlast k (ep_q p) <> None) by congruence. apply J3 in Hn. congruence. }
-  own_split; cbn [ep_en ep_q ep_cent own dlv sp_en attached].
-  - exact J1.
-  - intros k0 e0. rewrite !alookup_aset. destruct (k0 =? k) eqn:E.
-    + apply Z.eqb_eq in E. subst k0. rewrite Hq. auto.
-    + apply J2.
-  - intros k0 Hk. rewrite amem_aset. rewrite (J3 k0 Hk). apply orb_true_r.
-  - intros k0 Hk. rewrite memz_addz in Hk. rewrite amem_aset.
-    destruct (k0 =? k) eqn:E; cbn [orb] in *.
-    + apply Z.eqb_eq in E. subst k0. auto.
-    + now apply J4.
-  - exact J5.
-  - intros k0. rewrite amem_aset, memz_cons. destruct (k0 =? k); cbn [orb]; auto; apply J6.
-Qed.
-
-(* the triple and the history summary move together *)
-Lemma own_step p o op :
-  OwnInv p o -> cop_wf H K P o op = true -> OwnInv (cop_ev p op) (ospec_step K o op).
-Proof.
-  intros HI Hwf. unfold cop_wf in Hwf.
-  apply andb_true_iff in Hwf. destruct Hwf as (_ & Hop).
-  pose proof (own_attaches (attaches op) p o HI) as HA.
-  unfold ospec_step. destruct op as [w|k e s|k e].
-  - destruct w as [| | | | | | | |b| | |]; try exact HA.
-    cbn [attaches fold_left]. cbn [cop_ev].
-    pose proof (own_enable p o b HI) as HE. destruct b; exact HE.
-  - destruct s; exact HA.
-  - cbn [attaches fold_left cop_ev]. apply andb_true_iff in Hop. destruct Hop as (Hk & _).
-    apply negb_true_iff in Hk. now apply own_mk.
-Qed.
-
-Lemma own_cent p o k e :
-  OwnInv p o -> alookup k (own o) = Some e -> memz k (dlv o) = true ->
-  alookup k (ep_cent p) = Some e.
-Proof.
-  intros (J1 & J2 & J3 & J4 & J5 & J6) Ho Hd. specialize (J2 k e Ho).
-  now rewrite (proj1 (J4 k Hd)) in J2.
-Qed.
-
-Lemma knows_snapshot pool st o :
-  OwnInv (evp_of st) o -> knows o (snapshot K pool st) = true.
-Proof.
-  intros HI. unfold knows, snapshot. cbn [sn_world sn_cent andb].
+  intros (Hc & _). unfold knows, snapshot. cbn [sn_world sn_cent andb].
   apply forallb_forall. intros ke Hin. apply in_map_iff in Hin.
-  destruct Hin as (k & <- & _). cbn [fst snd].
-  destruct (memz k (dlv o)) eqn:E; auto.
-  pose proof HI as (_ & _ & _ & J4 & _). pose proof (proj2 (J4 k E)) as Hm. unfold amem in Hm.
-  destruct (alookup k (own o)) as [e|] eqn:Eo; [|discriminate].
-  pose proof (own_cent _ _ _ _ HI Eo E) as Hc. cbn [evp_of ep_cent] in Hc. rewrite Hc.
-  apply Z.eqb_refl.
+  destruct Hin as (k & <- & _). cbn [fst snd track_of t_own].
+  apply opt2_eqb_eq. unfold pickw. destruct (j =? 2); congruence.
 Qed.
 
 End PartA.
 
-Lemma side_ok_inv K pool r ores olog osnap st' :
-  side_ok K pool r ores olog osnap = Some st' ->
-  exists mres mlog, r = Some (st', mres, mlog) /\ ores = mres /\ olog = mlog /\
-                    osnap = snapshot K pool st'.
+Lemma side_ok_inv K pool j r ores olog osnap d' :
+  side_ok K pool j r ores olog osnap = Some d' ->
+  exists mres mlog, r = Some (d', mres, mlog) /\ ores = mres /\ olog = mlog /\
+                    osnap = snapshot K pool (pickw d' j).
 Proof.
   unfold side_ok. destruct r as [[[s mres] mlog]|]; [|discriminate].
   destruct (res_eqb ores mres) eqn:E1; cbn [andb]; [|discriminate].
   destruct (evs_eqb olog mlog) eqn:E2; cbn [andb]; [|discriminate].
-  destruct (snap_eqb osnap (snapshot K pool s)) eqn:E3; [|discriminate].
+  destruct (snap_eqb osnap (snapshot K pool (pickw s j))) eqn:E3; [|discriminate].
   intros [= <-]. apply res_eqb_eq in E1. apply evs_eqb_eq in E2. apply snap_eqb_eq in E3.
   eauto 6.
 Qed.
 
-Lemma cstep_sim c st o op ob stA' stB' :
-  let H := cc_hier c in let K := cc_comps c in let P := cc_procs c in
-  OwnInv (evp_of st) o -> cop_wf H K P o op = true ->
-  cstep c st st op ob = Some (stA', stB') ->
-  stA' = stB' /\ OwnInv (evp_of stA') (ospec_step K o op) /\
-  same_effect ob = true /\ knows (ospec_step K o op) (a_snap ob) = true.
+(* through a controller whose fields are (e, world j), every shorthand IS the
+   World call on world j for e *)
+Lemma via_controller_direct H K P d k e j s pick :
+  alookup k (cent (d1 d)) = Some (e, norm j) -> set_guard H K P s = true ->
+  via_controller H K P d k s pick = direct_call H K P d j e s pick.
 Proof.
-  intros H K P HI Hwf Hstep. unfold cstep in Hstep. fold H K P in Hstep.
-  set (rA := match op with
-             | ODirect w => w_step H K P st w (o_pick ob)
-             | OShort k e s => via_controller H K P st k s (o_pick ob)
-             | OMkCtrl k e => Some (mk_controller st k e, RNone, [])
-             end).
-  set (rB := match op with
-             | ODirect w => w_step H K P st w (o_pick ob)
-             | OShort k e s => direct_call H K P st e s (o_pick ob)
-             | OMkCtrl k e => Some (mk_controller st k e, RNone, [])
-             end).
-  assert (Hpair : (let '(a, b) :=
-                     match op with
-                     | ODirect w => (w_step H K P st w (o_pick ob), w_step H K P st w (o_pick ob))
-                     | OShort k e s => (via_controller H K P st k s (o_pick ob),
-                                        direct_call H K P st e s (o_pick ob))
-                     | OMkCtrl k e => (Some (mk_controller st k e, RNone, []),
-                                       Some (mk_controller st k e, RNone, []))
-                     end in
-                   match side_ok K (cc_pool c) a (a_res ob) (a_log ob) (a_snap ob),
-                         side_ok K (cc_pool c) b (b_res ob) (b_log ob) (b_snap ob) with
-                   | Some a', Some b' => Some (a', b')
-                   | _, _ => None
-                   end)
-                  = match side_ok K (cc_pool c) rA (a_res ob) (a_log ob) (a_snap ob),
-                          side_ok K (cc_pool c) rB (b_res ob) (b_log ob) (b_snap ob) with
-                    | Some a', Some b' => Some (a', b')
-                    | _, _ => None
-                    end) by (unfold rA, rB; destruct op; reflexivity).
-  rewrite Hpair in Hstep. clear Hpair.
-  (* the controller's entity is the entity of its attachment: both sides run the same call *)
-  assert (HAB : rA = rB).
-  { unfold rA, rB. destruct op as [w|k e s|k e]; auto.
-    unfold cop_wf in Hwf. apply andb_true_iff in Hwf. destruct Hwf as (_ & Hop).
-    apply andb_true_iff in Hop. destruct Hop as (Hop & Hsw).
-    apply andb_true_iff in Hop. destruct Hop as (Hown & Hdlv).
-    apply opt_eqb_eq in Hown.
-    pose proof (own_cent _ _ _ _ HI Hown Hdlv) as I3.
-    cbn [evp_of ep_cent] in I3.
-    unfold via_controller, direct_call. rewrite I3.
-    assert (Hg : set_guard H K P s = true) by (destruct s; exact Hsw || reflexivity).
-    rewrite Hg. cbn [negb]. reflexivity. }
-  rewrite <- HAB in Hstep.
-  destruct (side_ok K (cc_pool c) rA (a_res ob) (a_log ob) (a_snap ob)) as [a'|] eqn:EA;
-    [|discriminate].
-  destruct (side_ok K (cc_pool c) rA (b_res ob) (b_log ob) (b_snap ob)) as [b'|] eqn:EB;
-    [|discriminate].
+  intros Hc Hg. unfold via_controller, direct_call. rewrite Hc, Hg. cbn [negb].
+  apply on_world_norm.
+Qed.
+
+Lemma cstep_sim c d op ob dA' dB' :
+  let H := cc_hier c in let K := cc_comps c in let P := cc_procs c in
+  Good d -> cop_wf H K P (track_of d) op = true ->
+  cstep c d d op ob = Some (dA', dB') ->
+  dA' = dB' /\ Good dA' /\ track_of dA' = track_step K (track_of d) op /\
+  same_effect ob = true /\ knows (track_step K (track_of d) op) (a_snap ob) = true.
+Proof.
+  intros H K P HG Hwf Hstep. unfold cstep in Hstep. fold H K P in Hstep.
+  assert (HAB : side_a H K P d op (o_pick ob) = side_b H K P d op (o_pick ob)).
+  { destruct op as [j w|k e j s|k e j]; auto. cbn [side_a side_b].
+    cbn [cop_wf] in Hwf. apply andb_true_iff in Hwf. destruct Hwf as (Hwf & Hsw).
+    apply andb_true_iff in Hwf. destruct Hwf as (Hwf & _).
+    apply andb_true_iff in Hwf. destruct Hwf as (Hown & _).
+    apply opt2_eqb_eq in Hown. cbn [track_of t_own] in Hown.
+    apply via_controller_direct; [exact Hown|]. destruct s; exact Hsw || reflexivity. }
+  rewrite HAB in Hstep.
+  set (j := world_of op) in *.
+  destruct (side_ok K (cc_pool c) j (side_b H K P d op (o_pick ob)) (a_res ob) (a_log ob)
+                    (a_snap ob)) as [a'|] eqn:EA; [|discriminate].
+  destruct (side_ok K (cc_pool c) j (side_b H K P d op (o_pick ob)) (b_res ob) (b_log ob)
+                    (b_snap ob)) as [b'|] eqn:EB; [|discriminate].
   injection Hstep as <- <-.
   apply side_ok_inv in EA. destruct EA as (mres & mlog & ErA & Ea1 & Ea2 & Ea3).
   apply side_ok_inv in EB. destruct EB as (mres' & mlog' & ErB & Eb1 & Eb2 & Eb3).
   rewrite ErA in ErB. injection ErB as <- <- <-.
-  assert (Hev : evp_of a' = cop_ev K (evp_of st) op).
-  { rewrite HAB in ErA. unfold rB in ErA. destruct op as [w|k e s|k e].
-    - rewrite <- wop_ev_attaches. eapply evp_w_step; eauto.
-    - rewrite <- (lower_ev K _ k e s).
-      unfold direct_call in ErA.
-      destruct (lower s e) as [w d] eqn:El. cbn [fst].
-      destruct (w_step H K P st w (o_pick ob)) as [[[s1 r1] l1]|] eqn:Ew; [|discriminate].
-      injection ErA as <- _ _. eapply evp_w_step; eauto.
-    - injection ErA as <- _ _. reflexivity. }
-  pose proof (own_step H K P _ _ _ HI Hwf) as HI'. rewrite <- Hev in HI'.
-  split; [reflexivity|split; [exact HI'|split]].
+  assert (HT : Good a' /\ track_of a' = track_step K (track_of d) op).
+  { destruct op as [j0 w|k e j0 s|k e j0]; cbn [side_b track_step] in *.
+    - eapply on_world_track; eauto.
+    - unfold direct_call in ErA. rewrite <- (lowered_ev K).
+      eapply on_world_track; eauto.
+    - injection ErA as <- _ _.
+      destruct (put_track d j0 (mk_controller (pickw d j0) k e) HG eq_refl) as (HG' & Ht).
+      split; auto. rewrite Ht. unfold mk_controller, evp_of, set_ev.
+      cbn [w_en w_queue cent wid]. rewrite (wid_pick d j0 HG).
+      destruct HG as (Hc & H1 & H2).
+      unfold t_put, pickw, track_of. cbn [t_own t_en1 t_q1 t_en2 t_q2].
+      destruct (j0 =? 2); cbn [ep_en ep_q ep_cent]; f_equal; congruence. }
+  destruct HT as (HG' & HT).
+  split; [reflexivity|split; [exact HG'|split; [exact HT|split]]].
   - unfold same_effect. rewrite Ea1, Eb1, Ea2, Eb2, Ea3, Eb3.
     apply andb_true_iff. split; [apply andb_true_iff; split|].
     + now apply res_eqb_eq.
     + now apply evs_eqb_eq.
     + now apply snap_eqb_eq.
-  - rewrite Ea3. now apply knows_snapshot.
+  - rewrite Ea3, <- HT. now apply knows_snapshot.
 Qed.
 
-Lemma crun_sim c tr : forall st o,
-  OwnInv (evp_of st) o ->
-  ctrl_wf_from (cc_hier c) (cc_comps c) (cc_procs c) o tr = true ->
-  (exists r, crun c st st tr = Some r) ->
-  ctrl_holds_from (cc_comps c) o tr = true.
+Lemma crun_sim c tr : forall d,
+  Good d ->
+  ctrl_wf_from (cc_hier c) (cc_comps c) (cc_procs c) (track_of d) tr = true ->
+  (exists r, crun c d d tr = Some r) ->
+  ctrl_holds_from (cc_comps c) (track_of d) tr = true.
 Proof.
-  induction tr as [|[op ob] tr IH]; intros st o HI Hwf (r & Hrun); cbn [ctrl_holds_from]; auto.
+  induction tr as [|[op ob] tr IH]; intros d HG Hwf (r & Hrun); cbn [ctrl_holds_from]; auto.
   cbn [ctrl_wf_from] in Hwf. apply andb_true_iff in Hwf. destruct Hwf as (Hwf1 & Hwf).
   cbn [crun] in Hrun.
-  destruct (cstep c st st op ob) as [[a b]|] eqn:Es; [|discriminate].
-  destruct (cstep_sim c st o op ob a b HI Hwf1 Es) as (<- & HI' & Hsame & Hknows).
-  rewrite Hsame, Hknows. cbn [andb]. eapply IH; eauto.
+  destruct (cstep c d d op ob) as [[a b]|] eqn:Es; [|discriminate].
+  destruct (cstep_sim c d op ob a b HG Hwf1 Es) as (<- & HG' & HT & Hsame & Hknows).
+  rewrite Hsame, Hknows. cbn [andb]. rewrite <- HT in *. eapply IH; eauto.
 Qed.
 
 Theorem ctrl_accepts_holds c :
@@ -463,8 +308,8 @@ Theorem ctrl_accepts_holds c :
 Proof.
   unfold ctrl_wf_b, ctrl_accepts, ctrl_holds_b. intros Hwf Hacc.
   apply andb_true_iff in Hwf. destruct Hwf as (_ & Hwf).
-  destruct (crun c winit winit (cc_trace c)) as [r|] eqn:E; [|discriminate].
-  eapply crun_sim; eauto. apply OwnInv_init.
+  destruct (crun c dinit dinit (cc_trace c)) as [r|] eqn:E; [|discriminate].
+  change tinit with (track_of dinit). eapply crun_sim; eauto. apply Good_init.
 Qed.
 
 (* ====================================================================== *)
@@ -661,21 +506,12 @@ Proof.
   - now apply upd_accepts_holds.
 Qed.
 
-(* the model-level reading of part A: through a controller whose entity
-   field is e, every shorthand is the World call for e *)
-Lemma via_controller_direct H K P st k e s pick :
-  alookup k (cent st) = Some e -> set_guard H K P s = true ->
-  via_controller H K P st k s pick = direct_call H K P st e s pick.
-Proof. intros Hc Hg. unfold via_controller, direct_call. now rewrite Hc, Hg. Qed.
-
-(* and the owner invariant: along any accepted well-formed trace, after
-   every operation, every controller whose on_add has been delivered has the
-   entity of its attachment in its entity field *)
-Lemma knows_meaning o s k :
-  knows o s = true -> memz k (dlv o) = true ->
-  forall x, In (k, x) (sn_cent s) -> x = alookup k (own o).
+(* reading of [knows]: every controller's observed (entity, world) is the one
+   of its latest delivered on_add *)
+Lemma knows_meaning t s k x :
+  knows t s = true -> In (k, x) (sn_cent s) -> x = alookup k (t_own t).
 Proof.
-  unfold knows. intros Hk Hd x Hin. apply andb_true_iff in Hk. destruct Hk as (_ & Hk).
+  unfold knows. intros Hk Hin. apply andb_true_iff in Hk. destruct Hk as (_ & Hk).
   rewrite forallb_forall in Hk. specialize (Hk (k, x) Hin). cbn [fst snd] in Hk.
-  rewrite Hd in Hk. now apply opt_eqb_eq.
+  now apply opt2_eqb_eq.
 Qed.
